@@ -366,8 +366,8 @@ class NegateExpression(UnaryExpression):
         # "-x * y" is (-x) * y: harmless on its own, but not as a divisor or exponent
         if isinstance(inner, (MultiplyExpression, DivideExpression)):
             if isinstance(self.parent, (DivideExpression, PowerExpression)):
-                if not f"{inner}".startswith("("):
-                    return " " in f"{inner}"
+                if not (isinstance(inner, MultiplyExpression) and inner.is_compact()):
+                    return True
         # Walk down to whatever the text of inner starts with
         leaf: MathExpression = inner
         while True:
@@ -727,7 +727,8 @@ class PowerExpression(BinaryExpression):
         # A negated or compactly printed (4x) base must keep its grouping, or the
         # exponent would bind to its last factor only
         compact = isinstance(self.left, MultiplyExpression) and self.left.is_compact()
-        if isinstance(self.left, NegateExpression) or compact:
+        # (x^y)^z is not x^(y^z), and the parser reads at most one exponent after a literal
+        if isinstance(self.left, (NegateExpression, PowerExpression)) or compact:
             left = f"({left})"
         # x^(y^z) is not (x^y)^z
         if isinstance(self.right, PowerExpression):
